@@ -423,7 +423,7 @@ class ZGrammar(Grammar):
         out += ['[1, 2, 3]', 'range(n)', 'range(3)', 'range(1, 3)', 'g_two()']
         a, b = ls[-1], ls[0]
         out.append(f'[p + q for p, q in zip({a}, {b})]')
-        out.append(f'[x + y for x in {a} for y in {b}]')
+        out.append('[x + y for x in us for y in vs]')      # arguments only: iterating it on a local squares the length
         out.append(f'({a} if u > 0 else {b})')
         out.append(f'({a} if u > 0 else [p for p, q in zip({a}, {b})])')
         if not self.core:
